@@ -604,33 +604,36 @@ func (fr *frame) appendBuiltin(c *ssa.CallCommon, resT types.Type, pos string) V
 	n := app("slen", x.S)
 	ln, cp := app("slen", s.S), app("scap", s.S)
 	newLen := vc.define(fr.pfx+"app.len", sBV64, app("bvadd", ln, n))
-	fits := vc.define(fr.pfx+"app.fits", sBV64[:0]+sBool, app("bvule", newLen, cp))
-	// append of nothing returns the slice unchanged (may stay nil)
+	fits := vc.define(fr.pfx+"app.fits", sBool, app("bvule", newLen, cp))
+	zeroApp := eq(n, bvLit(64, 0))
+	inplace := vc.define(fr.pfx+"app.inplace", sBool, or(fits, zeroApp))
 	fr.lockCheckElems(comp, app("sarr", x.S), false, pos)
 	fr.lockCheckElems(comp, app("sarr", s.S), true, pos)
-	// in-place branch memory
-	memIn := fr.mem.clone()
-	vc.copyElems(memIn, comp, app("sarr", s.S), app("bvadd", app("soff", s.S), ln), app("sarr", x.S), app("soff", x.S), n)
-	resIn := app("mk_slice", app("sarr", s.S), app("soff", s.S), newLen, cp)
-	// reallocation branch
+	// Either the elements are written behind len in the existing array, or the
+	// whole array is copied to a fresh object (same offset: the layout of a new
+	// array is unobservable) and written there. One array term serves both.
+	M := vc.get(fr.mem, comp)
+	srt := vc.compSort[comp]
+	inner := srt[len("(Array Int ") : len(srt)-1]
+	D := app("select", M, app("sarr", s.S))
+	X := app("select", M, app("sarr", x.S))
+	doff := vc.define(fr.pfx+"app.at", sBV64, app("bvadd", app("soff", s.S), ln))
+	a2 := vc.fresh(fr.pfx+"app.arr", inner)
+	vc.assume(fmt.Sprintf("(forall ((_j (_ BitVec 64))) (! (= (select %s _j) (ite (and (bvule %s _j) (bvult _j (bvadd %s %s))) (select %s (bvadd %s (bvsub _j %s))) (select %s _j))) :pattern ((select %s _j)) :pattern ((select %s _j))))",
+		a2, doff, doff, n, X, app("soff", x.S), doff, D, a2, D))
+	// ground instances for short appends (the common append(s, x) case)
+	for k := 0; k < 2; k++ {
+		jk := app("bvadd", doff, bvLit(64, uint64(k)))
+		vc.assume(implies(app("bvult", bvLit(64, uint64(k)), n), eq(app("select", a2, jk), app("select", X, app("bvadd", app("soff", x.S), bvLit(64, uint64(k)))))))
+	}
 	memRe := fr.mem.clone()
 	r := vc.alloc(memRe, fr.pfx+"app")
 	ncap := vc.fresh(fr.pfx+"app.cap", sBV64)
 	vc.assume(and(app("bvule", newLen, ncap), app("bvult", ncap, "#x0001000000000000")))
-	M := vc.get(memRe, comp)
-	srt := vc.compSort[comp]
-	inner := srt[len("(Array Int ") : len(srt)-1]
-	a2 := vc.fresh("appnew", inner)
-	S := app("select", M, app("sarr", s.S))
-	X := app("select", M, app("sarr", x.S))
-	vc.assume(fmt.Sprintf("(forall ((_j (_ BitVec 64))) (! (=> (bvult _j %s) (= (select %s _j) (ite (bvult _j %s) (select %s (bvadd %s _j)) (select %s (bvadd %s (bvsub _j %s)))))) :pattern ((select %s _j))))",
-		newLen, a2, ln, S, app("soff", s.S), X, app("soff", x.S), ln, a2))
-	vc.set(memRe, comp, app("store", M, r, a2))
-	resRe := app("mk_slice", r, bvLit(64, 0), newLen, ncap)
-	zeroApp := eq(n, bvLit(64, 0))
-	useIn := vc.define(fr.pfx+"app.inplace", sBool, or(fits, zeroApp))
-	fr.mem = vc.mergeMem([]string{useIn, not(useIn)}, []Mem{memIn, memRe})
-	res := ite(zeroApp, s.S, ite(fits, resIn, resRe))
+	target := vc.define(fr.pfx+"app.ref", sInt, ite(inplace, app("sarr", s.S), r))
+	fr.mem = vc.mergeMem([]string{inplace, not(inplace)}, []Mem{fr.mem, memRe})
+	vc.set(fr.mem, comp, app("store", vc.get(fr.mem, comp), target, a2))
+	res := ite(zeroApp, s.S, app("mk_slice", target, app("soff", s.S), newLen, ite(inplace, cp, ncap)))
 	return Val{T: resT, S: res}
 }
 
@@ -719,8 +722,13 @@ func (fr *frame) backEdge(from, to *ssa.BasicBlock, g string) {
 		phiB[phi] = fr.val(phi.Edges[k])
 	}
 	env := fr.loopEnv(li, phiB, fr.mem)
+	li.nback++
+	via := ""
+	if li.nback > 1 {
+		via = fmt.Sprintf(" via back edge %d", li.nback)
+	}
 	for _, cl := range fr.loopClauses(li, "invariant") {
-		vc.oblige("inv-step", fmt.Sprintf("%s/inv-step[loop %d: %s]", vc.Name, li.ordinal, clauseLabel(cl)), g, env.evalBool(cl.Expr), fr.pos(from.Instrs[len(from.Instrs)-1].Pos()))
+		vc.oblige("inv-step", fmt.Sprintf("%s/inv-step[loop %d: %s%s]", vc.Name, li.ordinal, clauseLabel(cl), via), g, env.evalBool(cl.Expr), fr.pos(from.Instrs[len(from.Instrs)-1].Pos()))
 	}
 	for _, cl := range fr.loopClauses(li, "decreases") {
 		// measure at head vs at back edge (unsigned, 64-bit)
